@@ -601,15 +601,14 @@ def r_supersede(ctx) -> RuleResult:
     res = RuleResult("R-SUPERSEDE", "V2000 property block: CHG or RAD lines clear both chg and rad of every atom before the merge; the scan ends at `M  END` or raises")
     v2 = reader_entries(ctx)["V2000"]
     clo = [ctx.cg.funcs[q] for q in ctx.cg.closure([v2.fq])]
-    # the property-block function: the one with branches on startswith("M  CHG") / ("M  RAD")
+    # the property-block function: the one whose scan loop stops at `M  END`
     pf = None
     for f in clo:
-        txt = {x.args[0].value for x in own_walk(f.node) if isinstance(x, ast.Call) and isinstance(x.func, ast.Attribute) and x.func.attr == "startswith"
-               and x.args and isinstance(x.args[0], ast.Constant)}
-        if {"M  CHG", "M  RAD"} <= txt:
-            pf = f
+        for lp in [n for n in own_walk(f.node) if isinstance(n, ast.For)]:
+            if any(isinstance(x, ast.Constant) and x.value == "M  END" for x in ast.walk(lp)):
+                pf = f
     if pf is None:
-        raise AnalysisError("R-SUPERSEDE: no function branches on `M  CHG` and `M  RAD` lines (anchor vanished)")
+        raise AnalysisError("R-SUPERSEDE: no scan loop with an `M  END` test in the V2000 reader (anchor vanished)")
     fn = pf.node
     cfg = cfg_of(fn)
     chg_k = ctx.repo.const("tucan.graph_attributes", "CHG")
@@ -662,25 +661,60 @@ def r_supersede(ctx) -> RuleResult:
                 merge_calls.append(y)
     if not merge_calls:
         raise AnalysisError("R-SUPERSEDE: cannot find where property entries are merged into the atom records")
-    # what does each branch (CHG line seen / RAD line seen) establish?  flags set to True, dictionary keys stored
+    # what does seeing a CHG line / a RAD line establish, whatever its entries are?  Evaluate the path condition of every
+    # flag assignment / key store of the scan loop on sample lines of that kind (two samples with different content);
+    # a condition that needs anything but the line's kind is "not established"
+    SAMPLES = {"M  CHG": ["M  CHG  1   1   1", "M  CHG  1   2   0", "M  CHG  0"],
+               "M  RAD": ["M  RAD  1   1   2", "M  RAD  1   3   0", "M  RAD  0"],
+               "M  ISO": ["M  ISO  1   1  13", "M  ISO  1   2   0", "M  ISO  0"]}
+    scan = next((lp for lp in own_walk(fn) if isinstance(lp, ast.For) and isinstance(lp.target, ast.Name)
+                 and any(isinstance(x, ast.Constant) and x.value == "M  END" for x in ast.walk(lp))), None)
+    if scan is None:
+        raise AnalysisError("R-SUPERSEDE: scan loop not found")
+    lv = scan.target.id
+    consts = {}
+    for nm in {x.id for x in ast.walk(scan) if isinstance(x, ast.Name)}:
+        v = try_const(ctx, pf, ast.Name(nm, ast.Load()))
+        if v is not None:
+            consts[nm] = v
+
+    def effects(stmts, conds):
+        for st in stmts:
+            if isinstance(st, ast.If):
+                yield from effects(st.body, conds + [(st.test, True)])
+                yield from effects(st.orelse, conds + [(st.test, False)])
+            elif isinstance(st, (ast.For, ast.While, ast.With)):
+                yield from effects(st.body, conds)
+            else:
+                yield st, conds
     facts: dict[str, set] = {}
-    branch_nodes = {}
-    for n in own_walk(fn):
-        if isinstance(n, ast.If) and isinstance(n.test, ast.Call) and isinstance(n.test.func, ast.Attribute) and n.test.func.attr == "startswith" \
-                and n.test.args and isinstance(n.test.args[0], ast.Constant):
-            which = n.test.args[0].value
-            branch_nodes[which] = n
-            for st in ast.walk(ast.Module(n.body, [])):
-                if isinstance(st, ast.Assign) and isinstance(st.targets[0], ast.Name) and isinstance(st.value, ast.Constant) and st.value.value is True:
-                    facts.setdefault(which, set()).add(("flag", st.targets[0].id))
-                if isinstance(st, ast.Assign) and isinstance(st.targets[0], ast.Subscript) and isinstance(st.targets[0].value, ast.Name):
-                    k = try_const(ctx, pf, st.targets[0].slice)
-                    if k is not None:
-                        facts.setdefault(which, set()).add(("key", st.targets[0].value.id, k))
-                if isinstance(st, ast.Call) and isinstance(st.func, ast.Attribute) and st.func.attr in ("add", "append") and isinstance(st.func.value, ast.Name) and st.args:
-                    k = try_const(ctx, pf, st.args[0])
-                    if k is not None:
-                        facts.setdefault(which, set()).add(("key", st.func.value.id, k))
+    for st, conds in effects(scan.body, []):
+        eff = None
+        if isinstance(st, ast.Assign) and isinstance(st.targets[0], ast.Name) and isinstance(st.value, ast.Constant) and st.value.value is True:
+            eff = ("flag", st.targets[0].id)
+        elif isinstance(st, ast.Assign) and isinstance(st.targets[0], ast.Subscript) and isinstance(st.targets[0].value, ast.Name):
+            eff = ("key", st.targets[0].value.id, st.targets[0].slice)
+        elif isinstance(st, ast.Expr) and isinstance(st.value, ast.Call) and isinstance(st.value.func, ast.Attribute) and st.value.func.attr in ("add", "append") \
+                and isinstance(st.value.func.value, ast.Name) and st.value.args:
+            eff = ("key", st.value.func.value.id, st.value.args[0])
+        if eff is None:
+            continue
+        for kind, samples in SAMPLES.items():
+            ok_all = True
+            keyval = None
+            for smp in samples:
+                env = {**consts, lv: smp}
+                try:
+                    for test, pol in conds:
+                        if bool(ceval(test, env)) != pol:
+                            raise ValueError
+                    if eff[0] == "key":
+                        keyval = ceval(eff[2], env)
+                except Exception:
+                    ok_all = False
+                    break
+            if ok_all:
+                facts.setdefault(kind, set()).add(("flag", eff[1]) if eff[0] == "flag" else ("key", eff[1], keyval))
 
     def implied(cond: ast.expr, which: str) -> bool:
         """does having seen a `which` line make the condition true?"""
